@@ -672,6 +672,34 @@ def call(viol, tag, fn, *a):
     return False, None
 
 
+def refine_probe(triples, stats):
+    """DIAGNOSTIC ONLY (never a verdict, private API): partition of the blank nodes after rdflib's initial colour
+    refinement vs the partition computed by the Lean transcription RV/C14/Canon.lean (`refine` op of the driver)."""
+    try:
+        from rdflib.compare import _TripleCanonicalizer
+        tc = _TripleCanonicalizer(mk_graph(triples))
+        col = tc._initial_color()
+        col = tc._refine(col, col[:])
+        impl = sorted(sorted("_:" + str(n) for n in c.nodes) for c in col if isinstance(c.nodes[0], BNode))
+    except Exception:  # noqa: BLE001  (a refactoring of private code must not alarm)
+        stats["refine_probe_unavailable"] = stats.get("refine_probe_unavailable", 0) + 1
+        return
+    voc = {}
+
+    def code(x):
+        k = x if is_b(x) else T(x)
+        if k not in voc:
+            voc[k] = len(voc)
+        return 2 * voc[k] + (1 if is_b(x) else 0)
+    line = "refine " + " ".join(str(code(x)) for t in triples for x in t)
+    exe = os.path.join(core.LEAN, ".lake", "build", "bin", DRIVER)
+    out = subprocess.run([exe], input=line + "\n", stdout=subprocess.PIPE, text=True, timeout=60, cwd=core.LEAN).stdout.strip()
+    rev = {v: k for k, v in voc.items()}
+    model = sorted(sorted(rev[int(i)] for i in cl.split(",")) for cl in out.split(" | ")) if out and out != "bad-op" else []
+    key = "refine_probe_agree" if model == impl else "refine_probe_differ"
+    stats[key] = stats.get(key, 0) + 1
+
+
 def profile(triples):
     """sizes of the colour classes blank nodes fall into under plain refinement (independent of rdflib)"""
     ts = [tuple(T(x) for x in t) for t in triples]
@@ -772,6 +800,7 @@ def run_pair(case):
             raise RuntimeError(f"ORACLE DISAGREEMENT isoutil={expect} lean={got} case={case}")
     if line:
         obs = [b2s(r_iso), b2s(r_eq), b2s(r_dig), b2s(r_can), "diff %s %s %s" % (b2s(d1), b2s(d2), b2s(d3))]
+    refine_probe(g1s, stats)
     prof = (profile(g1s), profile(g2s))
     nontrivial = any(c > 1 for pr in prof for c in pr)
     if nontrivial:
@@ -816,6 +845,7 @@ def run_multi(case):
     c1 = py_iso(res[0][1], s0)
     if not c1:
         viol.append("canon-not-iso: to_canonical_graph(g) is not isomorphic to g")
+    refine_probe(gs[0], stats)
     prof = profile(gs[0])
     nontrivial = any(c > 1 for c in prof)
     if nontrivial:
